@@ -113,6 +113,11 @@ func (g *Gen) Rule(userChains []string) Rule {
 		if r.Proto == "tcp" && g.Rng.Intn(8) == 0 {
 			r.NotSyn = true
 		}
+		if (r.Dport != "" || r.Sport != "") && g.Rng.Intn(5) == 0 {
+			// A port match together with a second match module: the
+			// kernel prints "-m tcp ... -m state ...".
+			r.State = [][]string{{"NEW"}, {"ESTABLISHED", "NEW"}, {"ESTABLISHED", "RELATED"}}[g.Rng.Intn(3)]
+		}
 	}
 	if r.Sport == "" && r.Dport == "" && !r.NotSyn && r.IcmpType == "" && g.Rng.Intn(12) == 0 {
 		r.Frag = true // later fragments carry no ports
